@@ -364,7 +364,11 @@ def h_resolve(X):
     method = X.choose("method", ["GET", "POST"])
     body = X.choose("body", ["", "b"])
     enc = X.boolean("accept_encoding")
-    headers = ([("host", hosthdr)] if hosthdr else []) + ([("accept-encoding", "br")] if enc else []) + [("x-h", "v")]
+    # the same field name may occur more than once (also in different case): the exported command must carry every field
+    dup = X.choose("repeated_header", [None, [("x-dup", "1"), ("x-dup", "2")], [("cookie", "a=1"), ("Cookie", "b=2")], [("x-dup", "1"), ("x-h2", "w"), ("x-dup", "1")]])
+    headers = ([("host", hosthdr)] if hosthdr else []) + ([("accept-encoding", "br")] if enc else []) + [("x-h", "v")] + (dup or [])
+    if dup:
+        X.reach("repeated-header")
     f = _mkflow(method.encode(), [(k.encode(), v.encode()) for k, v in headers], b"/p", body.encode(), peer=peer)
     t.options.export_preserve_original_ip = opt
     try:
@@ -477,7 +481,7 @@ def obligations(tier):
              must_reach=["exported", "curl-decoded", "httpie-decoded", "body-exact", "printf-shape", "embedded-single-quote"], parallel_depth=3),
         Symx("curl-options", h_resolve,
              bounds="export_preserve_original_ip on/off x server peername {none, 192.168.0.1, equal to host, ::1} x Host header {none, other.example:81, same} x GET/POST x body/no body "
-                    "x accept-encoding", encoded=ENCODED[:5], must_reach=["exported", "resolve", "curl-decoded"]),
+                    "x accept-encoding x repeated header names {none, x-dup twice, cookie/Cookie, x-dup around another field}", encoded=ENCODED[:5], must_reach=["exported", "resolve", "curl-decoded", "repeated-header"]),
         Symx("raw-reparse", lambda X: h_raw(X, 1 if q else 2),
              bounds=f"raw_request of representable requests: method from {RAW_METHODS}, header name from {RAW_NAMES}, header value / path / body = strings of <= {1 if q else 2} characters over "
                     "the alphabet (no CR/LF in values, no blanks in the target) x Content-Encoding none / gzip / undecodable gzip x chunked x origin/absolute form; re-parsed by vf/refs/http1ref.py",
